@@ -33,8 +33,14 @@ def unbold_tree(t: dict) -> dict:
                 while len(ch) == 1 and ch[0]["t"] == "StrongEmphasis":
                     ch = ch[0].get("c", [])
                 n["c"] = ch
-            elif len(ch) == 1 and ch[0]["t"] == "Emphasis" and len(ch[0].get("c", [])) == 1 and ch[0]["c"][0]["t"] == "StrongEmphasis":
-                ch[0]["c"] = ch[0]["c"][0].get("c", [])
+            # bold-italic becomes italic; this also holds for what the first rule leaves (fix b925259: '**_**a**_**' is entirely bold and what
+            # remains, '***a***', is bold-italic), with bold directly inside bold counting as bold
+            ch = n.get("c", [])
+            if len(ch) == 1 and ch[0]["t"] == "Emphasis":
+                inner = ch[0].get("c", [])
+                while len(inner) == 1 and inner[0]["t"] == "StrongEmphasis":
+                    inner = inner[0].get("c", [])
+                ch[0]["c"] = inner
         for k in n.get("c", []):
             walk(k)
     walk(t)
@@ -60,7 +66,9 @@ HEADINGS = ["# **All bold**", "## ***Bold italic***", "### **Partly** bold", "# 
             "- # **in item**", "> ## **in quote**", "[^n]: # **in note**", "# ~~**struck bold**~~", "# [**link bold**](u)",
             # italic spans that merely start or end with a bold span, several bold spans, bold holding italic
             "# ***bold** more*", "# *__bold__ more*", "# *more **bold***", "## ***a** b **c***", "# **bold *and italic***", "# ***a*** ***b***",
-            "*__Setext bold__ more*\n---", "# _**x**_", "# **_x_**", "# *`code` **b***"]
+            "*__Setext bold__ more*\n---", "# _**x**_", "# **_x_**", "# *`code` **b***",
+            # bold around italics around bold (one pass must reach the fixed point), bold nested in bold inside italics
+            "# **_**a**_**", "# ***__a__***", "# _****a****_", "# **_**a** b_**", "**_**Setext**_**\n===", "# __*__a__*__"]
 
 
 # every ordered pair of heading pieces (bold, bold-italic, italic, text, bare punctuation, code, link): a heading is "entirely bold" only if
